@@ -123,3 +123,57 @@ Print Assumptions c17_clause_matching. Print Assumptions c17_clause_sum_count_no
 Print Assumptions c17_clause_percentile. Print Assumptions c17_clause_total. Print Assumptions c17_clause_row_order_irrelevant.
 Print Assumptions c17_clause_skip_sound_iff. Print Assumptions c17_clause_skip_variant_refuted.
 Print Assumptions c17_clause_guard_over_clauses_sound. Print Assumptions c17_clause_example.
+
+(* ---- value range: what the column type N does and does not limit (Agg/AggRange.v, Agg/AggRangeLaws.v) ---- *)
+From AV Require Import Agg.AggRange.
+From AV Require Import Agg.AggRangeLaws.
+
+(* mean: every input is converted to f64 before it is added, so NO intermediate has the column type.  For every column
+   type of at most 32 bits (all integer types with `Into<f64>`) and at most 2^21 rows, the code's f64 fold holds every
+   prefix total exactly -- whatever the values, in particular when the total leaves the column type -- and returns the
+   rational sum / count of the unbounded model (one correctly rounded IEEE division: trusted base) *)
+Theorem c17_mean_not_limited_by_column_type : forall t l, 0 < bits t <= 32 -> Forall (in_range t) l -> zlen l <= 2 ^ 21 ->
+  agg_mean_f64 l = Exact (agg_mean l).
+Proof. intros t l [H B]; exact (mean_f64_exact t l H B). Qed.
+
+(* sum: adds in the column type; its range IS the caller's responsibility.  With overflow checks on it is the sum when
+   every prefix total is a value of N and panics otherwise; with checks off it is the sum exactly when the total is one;
+   an order independent sufficient precondition: the negative and the positive inputs each total within N *)
+Theorem c17_sum_in_column_type : forall t l, 0 < bits t ->
+  (prefixes_in_range t l 0 -> agg_sum_checked t l = Ok (agg_sum l)) /\
+  (~ prefixes_in_range t l 0 -> agg_sum_checked t l = Panic) /\
+  (agg_sum_wrapped t l = agg_sum l <-> in_range t (zsum l)) /\
+  (ty_min t <= neg_part l -> pos_part l <= ty_max t ->
+   forall l', Permutation l l' -> agg_sum_checked t l' = Ok (agg_sum l) /\ agg_sum_wrapped t l' = agg_sum l).
+Proof.
+  intros t l H. split; [exact (agg_sum_checked_ok t l) | split; [exact (agg_sum_checked_panic t l) | split;
+    [exact (agg_sum_wrapped_ok_iff t l H) | exact (sum_in_type_correct t l H)]]].
+Qed.
+
+(* the variant "mean through a total held in the column type" (overflow checks off: wrapped to the column width; on: panic)
+   agrees with mean exactly when the total / every prefix total is a value of the column type ... *)
+Theorem c17_mean_via_column_sum_iff : forall t l, 0 < bits t -> l <> [] ->
+  (agg_mean_colsum_wrapped t l = agg_mean l <-> in_range t (zsum l)) /\
+  (prefixes_in_range t l 0 -> agg_mean_colsum_checked t l = Ok (agg_mean l)) /\
+  (~ prefixes_in_range t l 0 -> agg_mean_colsum_checked t l = Panic).
+Proof.
+  intros t l H N. split; [exact (agg_mean_colsum_wrapped_ok_iff t l H N) | split;
+    [exact (agg_mean_colsum_checked_ok t l) | exact (agg_mean_colsum_checked_panic t l)]].
+Qed.
+(* ... hence it is refuted as an implementation of mean: inputs and mean inside the column type, result wrong / a panic *)
+Theorem c17_mean_via_column_sum_refuted : exists t l, forallb (in_rangeb t) l = true /\
+  agg_mean_colsum_wrapped t l <> agg_mean l /\ agg_mean_colsum_checked t l = Panic /\ agg_mean_f64 l = Exact (agg_mean l).
+Proof. exact agg_mean_colsum_refuted. Qed.
+
+Example c17_range_example :
+  agg_mean [2000000000; 2000000000] = [(4000000000, 2)] /\ agg_mean_f64 [2000000000; 2000000000] = Exact [(4000000000, 2)] /\
+  agg_mean_colsum_wrapped i32 [2000000000; 2000000000] = [(-294967296, 2)] /\
+  agg_mean_colsum_checked i32 [2000000000; 2000000000] = Panic /\
+  agg_mean_colsum_wrapped u8 [200; 100] = [(44, 2)] /\ agg_mean [200; 100] = [(300, 2)] /\
+  agg_sum_checked i32 [2147483647; -2147483648] = Ok [-1] /\ agg_sum_checked i32 [2147483647; 1; -2147483648] = Panic /\
+  agg_sum_wrapped i32 [2147483647; 1; -2147483648] = [0] /\ agg_sum_wrapped u8 [200; 100] = [44] /\
+  agg_min [-2147483648; 2147483647] = [-2147483648] /\ agg_percentile 100 1 [4294967295; 0] = Ok [4294967295].
+Proof. vm_compute. repeat split. Qed.
+
+Print Assumptions c17_mean_not_limited_by_column_type. Print Assumptions c17_sum_in_column_type.
+Print Assumptions c17_mean_via_column_sum_iff. Print Assumptions c17_mean_via_column_sum_refuted. Print Assumptions c17_range_example.
